@@ -27,7 +27,7 @@ theorem extraction_complete : Generated.C07.notes = [] := by decide
 
 /-- the functions transcribed in Model/Boundary.lean are textually (modulo comments and layout) the ones the model was
     written from -/
-theorem source_tie : Generated.C07.sourceHashes = Expected.C07.sourceHashes := by decide
+theorem source_tie : Expected.C07.hashesReviewed Generated.C07.sourceHashes = true := by decide
 
 /-! ### marshalling: the identity contract -/
 
@@ -514,5 +514,45 @@ example : wrapperCall E { numRet := 1, params := [.plain], nLocals := 0, body :=
 /-- mutation witness: with `fr.data[1:numRet+1]` the wrapper returns the argument cell instead of the result -/
 example : wrapperCallWith 1 (.add .base (.lit 1)) E { numRet := 1, params := [.plain], nLocals := 0, body := fun _ fr => setAt fr 0 (.int 1) }
     (fun _ _ => []) [.int 42] = [.int 42] := rfl
+
+/-! ### one wrapper value, nested invocations -/
+
+theorem runLevels_perCall (d : ReFn) : ∀ (levels : List (List Rep)) (sh : List Rep),
+    runLevels true d levels sh = (specLevels d levels, sh) := by
+  intro levels
+  induction levels with
+  | nil => intro sh; rfl
+  | cons args rest ih =>
+    intro sh
+    cases rest with
+    | nil => rfl
+    | cons a2 r2 =>
+      simp only [runLevels, specLevels, if_true]
+      rw [ih sh]
+
+/-- **Nested invocations of one wrapper value do not interfere**: the source allocates the frame inside the
+    reflect.MakeFunc closure (`wrapFramePerCall`, regenerated), so for every function shape, every recursion depth and every
+    argument list per level — a stored callback re-entering itself through the host — the outermost result is the one of
+    independent activations, whatever earlier invocations left behind. -/
+theorem wrapper_call_reentrant (d : ReFn) (levels : List (List Rep)) (sh : List Rep) :
+    (runLevels E.wrapFramePerCall d levels sh).1 = specLevels d levels := by
+  have h : E.wrapFramePerCall = true := rfl
+  rw [h, runLevels_perCall]
+
+theorem wrapper_call_reentrant_generated (d : ReFn) (levels : List (List Rep)) (sh : List Rep) :
+    (runLevels Generated.C07.facts.wrapFramePerCall d levels sh).1 = specLevels d levels := by
+  rw [facts_tie]; exact wrapper_call_reentrant d levels sh
+
+/-- the same for function literals (getFunc) -/
+theorem closure_call_reentrant (d : ReFn) (levels : List (List Rep)) (sh : List Rep) :
+    (runLevels E.getFuncFramePerCall d levels sh).1 = specLevels d levels := by
+  have h : E.getFuncFramePerCall = true := rfl
+  rw [h, runLevels_perCall]
+
+/-- shared-frame variant (the frame hoisted out of the closure): `Sum(2)` re-entering itself through the host yields 0,
+    the contract 3 — every level reads the parameter cell the innermost invocation overwrote -/
+theorem shared_frame_witness :
+    (runLevels false sumFn [[.int 2], [.int 1], [.int 0]] []).1 = [.int 0] ∧
+    specLevels sumFn [[.int 2], [.int 1], [.int 0]] = [.int 3] := ⟨rfl, rfl⟩
 
 end YaegiVerif.Props.C07
